@@ -36,7 +36,10 @@ func genMapProg(id int, seed int64, nsteps int) *Prog {
 	key := func() string { return keys[rng.Intn(len(keys))] }
 	var b strings.Builder
 	line := func(f string, a ...interface{}) { b.WriteString("\t" + fmt.Sprintf(f, a...) + "\n") }
-	switch rng.Intn(3) {
+	switch rng.Intn(4) {
+	case 3:
+		// several entries whose (non-constant) keys may be equal at run time: one entry, the later value
+		line("m := map[%s]int{%s: %s, %s: %s, %s: %s}", kt, keys[0], in("int"), keys[1%len(keys)], in("int"), keys[len(keys)-1], in("int"))
 	case 0:
 		line("m := map[%s]int{}", kt)
 	case 1:
